@@ -153,7 +153,12 @@ func c12Robust(c *fw.Ctx, s1, s2 seg, a, b, cc, d geom.Coord, tr c12truth, locat
 		func() {
 			defer func() { _ = recover() }()
 			ends := []geom.Coord{a, b, cc, d}
-			k := c.R.Intn(4)
+			k := c.R.Intn(6)
+			if k >= 4 {
+				// the other strategy, same coordinates
+				_ = lineintersector.LineIntersectsLine(lineintersector.NonRobustLineIntersector{}, a, b, cc, d)
+				return
+			}
 			if k < 2 {
 				_ = lineintersector.PointIntersectsLine(lineintersector.RobustLineIntersector{}, ends[k], cc, d)
 			} else {
